@@ -55,9 +55,11 @@
 
 typedef struct {
   NiceTurnSocketCompatibility compatibility;
+  /* Large enough for the biggest frame a header can announce:
+   * 20 + 65535 bytes of STUN message plus padding to a multiple of 4. */
   union {
-    guint8 u8[65536];
-    guint16 u16[32768];
+    guint8 u8[65556];
+    guint16 u16[32778];
   } recv_buf;
   gsize recv_buf_len;  /* in bytes */
   guint expecting_len;
